@@ -35,6 +35,7 @@ enum Kind {
 
 #[derive(Default, Clone)]
 struct Target {
+    raw: Option<String>, // a verbatim block of glue definitions emitted at this position
     file: String,
     func: String, // "name" or "Type::name"
     coq: String,
@@ -65,7 +66,10 @@ struct Target {
     retvars: Vec<String>,                         // retmode mutself: the function returns the final versions of these
     scrutmut: Vec<(String, Vec<String>, String)>, // match scrutinee text -> (variables, term : value * new values)
     condeff: Vec<(String, Vec<String>, String)>,  // if condition text -> (variables, term : bool * new values)
-    retstate: Vec<String>,                        // the function also returns the final versions of these (after its value)
+ retstate: Vec<String>,                        // the function also returns the final versions of these (after its value)
+    leteff: Vec<(String, Vec<String>, String)>,   // let-initialiser text -> (variables, term : res (value * new values))
+    psmap: Vec<(String, Vec<String>, String)>,    // statement text -> (variables, term : res (new values))
+    loopfuel: Option<String>,                     // fuel of a `loop { .. break .. }` (term over the state at loop entry)
     recfuel: Option<String>,                      // recursive function: Fixpoint on a fuel parameter; panic site when it runs out
 }
 
@@ -75,6 +79,7 @@ struct Tr<'a> {
     env: Vec<HashMap<String, (String, Kind)>>,
     loop_depth: usize,
     loop_sr: Vec<Vec<String>>, // enclosing state-and-return loops: their state variables
+    loop_brk: Vec<Vec<String>>, // enclosing `loop`s: their state variables
 }
 
 type R<T> = Result<T, String>;
@@ -90,6 +95,7 @@ enum K<'a> {
     ValJoin(Vec<String>),              // a block used as a value that also assigns these outer variables
     NoFall,                            // a branch that must not fall through (it returns)
     LoopSR(Vec<String>),               // end of the body of a loop with state and early return: next element
+    LoopBrk(Vec<String>),              // end of the body of a `loop`: go round again
 }
 
 impl<'a> Tr<'a> {
@@ -658,6 +664,7 @@ impl<'a> Tr<'a> {
 
     fn mk_scan(&self) -> Scan {
         Scan {
+            has_break: false,
             value_return: false,
             assigned: Vec::new(),
             mutmethods: self.mut_keys(),
@@ -669,6 +676,8 @@ impl<'a> Tr<'a> {
                 .chain(self.t.condmut.iter().map(|(k, vs, _)| (k.clone(), vs.clone())))
                 .chain(self.t.scrutmut.iter().map(|(k, vs, _)| (k.clone(), vs.clone())))
                 .chain(self.t.condeff.iter().map(|(k, vs, _)| (k.clone(), vs.clone())))
+                .chain(self.t.leteff.iter().map(|(k, vs, _)| (k.clone(), vs.clone())))
+                .chain(self.t.psmap.iter().map(|(k, vs, _)| (k.clone(), vs.clone())))
                 .collect(),
         }
     }
@@ -709,6 +718,13 @@ impl<'a> Tr<'a> {
             K::LoopNext => Ok("None".to_string()),
             K::Val | K::ValJoin(_) => Err("a block used as a value must end in an expression".into()),
             K::NoFall => Err("the branch of a mutating condition must return".into()),
+            K::LoopBrk(vars) => {
+                let mut parts = Vec::new();
+                for v in vars {
+                    parts.push(self.lookup(v).ok_or(format!("loop variable {}", v))?.0);
+                }
+                Ok(format!("Ok ({}, false)", Self::tuple_of(&parts)))
+            }
             K::LoopSR(vars) => {
                 let mut parts = Vec::new();
                 for v in vars {
@@ -787,6 +803,25 @@ impl<'a> Tr<'a> {
                 } else {
                     Err(format!("macro {}!", p))
                 }
+            }
+            Stmt::Local(l) if l.init.as_ref().map(|i| self.t.leteff.iter().any(|(k, _, _)| *k == toks(&*i.expr))).unwrap_or(false) => {
+                // let x = <call with an effect on outer variables>;  value and new state come from the table
+                let init = l.init.as_ref().unwrap();
+                let text = toks(&*init.expr);
+                let (_, vars, term) = self.t.leteff.iter().find(|(k, _, _)| *k == text).cloned().unwrap();
+                let name = match &l.pat {
+                    Pat::Ident(i) => i.ident.to_string(),
+                    _ => return Err(format!("let pattern {}", toks(&l.pat))),
+                };
+                let term = self.subst_vars(&term);
+                let mut names = Vec::new();
+                for v in &vars {
+                    names.push(self.rebind(v)?);
+                }
+                let kind = self.t.kinds.get(&name).cloned().unwrap_or(Kind::Other);
+                let c = self.bind(&name, kind);
+                let restc = self.seq(rest, k)?;
+                Ok(format!("obind ({}) (fun '({}, {}) =>\n{})", term, c, Self::tuple_of(&names), restc))
             }
             Stmt::Local(l) if matches!(&l.pat, Pat::Ident(i) if self.t.letmap.contains_key(&i.ident.to_string())) => {
                 let name = match &l.pat { Pat::Ident(i) => i.ident.to_string(), _ => unreachable!() };
@@ -932,6 +967,17 @@ impl<'a> Tr<'a> {
 
     fn stmt_expr(&mut self, e: &Expr, rest: &[Stmt], k: &K) -> R<String> {
         let text = toks(e);
+        for (key, vars, term) in self.t.psmap.clone() {
+            if key == text {
+                let term = self.subst_vars(&term);
+                let mut names = Vec::new();
+                for v in &vars {
+                    names.push(self.rebind(v)?);
+                }
+                let restc = self.seq(rest, k)?;
+                return Ok(format!("obind ({}) (fun {} =>\n{})", term, Self::tuple_pat(&names), restc));
+            }
+        }
         for (key, vars, terms) in self.t.smap.clone() {
             if key == text {
                 let terms: Vec<String> = terms.iter().map(|t| self.subst_vars(t)).collect();
@@ -998,7 +1044,13 @@ impl<'a> Tr<'a> {
         match e {
             Expr::Macro(m) => {
                 let p = toks(&m.mac.path);
-                if self.is_skipped_macro(&p) { self.seq(rest, k) } else { Err(format!("macro {}!", p)) }
+                if self.is_skipped_macro(&p) {
+                    self.seq(rest, k)
+                } else if p == "panic" || p == "unreachable" {
+                    Ok(format!("Panic {}", self.t.panic_site))
+                } else {
+                    Err(format!("macro {}!", p))
+                }
             }
             Expr::Return(r) => match &r.expr {
                 Some(x) => self.ret(x),
@@ -1166,6 +1218,48 @@ impl<'a> Tr<'a> {
                     format!("match loop_ret {} (fun {} =>\n{}) with\n| Some r_loop => {}\n| None =>\n{}\nend", it, c, body, hit, restc),
                 ))
             }
+            Expr::Loop(lp) => {
+                // loop { .. if c { break; } }  on fuel: the state is what the body assigns
+                let fuel = self.t.loopfuel.clone().ok_or("a `loop` needs a loopfuel entry")?;
+                let fuel = self.subst_vars(&fuel);
+                let sc = scan_block_with(&lp.body, self.mk_scan());
+                if sc.value_return {
+                    return Err("return inside a `loop`".into());
+                }
+                let vars: Vec<String> = sc.assigned.into_iter().filter(|v| self.lookup(v).is_some()).collect();
+                let mut init = Vec::new();
+                for v in &vars {
+                    init.push(self.lookup(v).unwrap().0);
+                }
+                let saved = self.env.clone();
+                let mut params = Vec::new();
+                for v in &vars {
+                    params.push(self.rebind(v)?);
+                }
+                self.env.push(HashMap::new());
+                self.loop_brk.push(vars.clone());
+                let body = self.seq(&lp.body.stmts, &K::LoopBrk(vars.clone()));
+                self.loop_brk.pop();
+                self.env = saved;
+                let body = body?;
+                let mut outs = Vec::new();
+                for v in &vars {
+                    outs.push(self.rebind(v)?);
+                }
+                let restc = self.seq(rest, k)?;
+                Ok(format!(
+                    "obind (loop_fuel ({}) (fun {} =>\n{}) {}) (fun {} =>\n{})",
+                    fuel, Self::tuple_pat(&params), body, Self::tuple_of(&init), Self::tuple_pat(&outs), restc
+                ))
+            }
+            Expr::Break(_) => {
+                let vars = self.loop_brk.last().cloned().ok_or("break outside a translated `loop`")?;
+                let mut parts = Vec::new();
+                for v in &vars {
+                    parts.push(self.lookup(v).ok_or(format!("loop variable {}", v))?.0);
+                }
+                Ok(format!("Ok ({}, true)", Self::tuple_of(&parts)))
+            }
             Expr::Block(b) => self.block(&b.block, rest, k),
             Expr::MethodCall(m) if !rest.is_empty() || !matches!(k, K::End | K::Val) || true => {
                 let key = format!("{}/{}", m.method, m.args.len());
@@ -1269,7 +1363,8 @@ impl<'a> Tr<'a> {
         if rest.is_empty() && self.tail_position(k) {
             return false; // the statement IS the value of the enclosing block / function
         }
-        follows && self.loop_depth == 0 && !self.scan(e).value_return
+        let sc = self.scan(e);
+        follows && self.loop_depth == 0 && !sc.value_return && !sc.has_break
     }
 
     fn join_stmt(&mut self, e: &Expr, rest: &[Stmt], k: &K) -> R<String> {
@@ -1535,6 +1630,7 @@ impl<'a> Tr<'a> {
 
 // ---- does a piece of code return a (non-error) VALUE early, and which variables does it assign?
 struct Scan {
+    has_break: bool,
     value_return: bool,
     assigned: Vec<String>,
     mutmethods: Vec<String>,
@@ -1562,6 +1658,15 @@ impl<'ast> syn::visit::Visit<'ast> for Scan {
         syn::visit::visit_expr_assign(self, a);
     }
     fn visit_expr_closure(&mut self, _c: &'ast syn::ExprClosure) {}
+    fn visit_expr_break(&mut self, _b: &'ast syn::ExprBreak) {
+        self.has_break = true;
+    }
+    fn visit_expr_loop(&mut self, l: &'ast syn::ExprLoop) {
+        // a `break` inside a nested loop belongs to that loop
+        let hb = self.has_break;
+        syn::visit::visit_expr_loop(self, l);
+        self.has_break = hb;
+    }
     fn visit_expr(&mut self, e: &'ast Expr) {
         if !self.stmt_vars.is_empty() {
             let t = toks(e);
@@ -1633,8 +1738,20 @@ fn parse_targets(text: &str) -> (String, Vec<Target>) {
     let mut prelude = String::new();
     let mut out: Vec<Target> = Vec::new();
     let mut in_prelude = false;
+    let mut in_raw = false;
     for raw in text.lines() {
         let line = raw.trim_end();
+        if in_raw {
+            if line.trim() == "[end]" {
+                in_raw = false;
+            } else {
+                let t = out.last_mut().unwrap();
+                let r = t.raw.as_mut().unwrap();
+                r.push_str(line);
+                r.push('\n');
+            }
+            continue;
+        }
         if in_prelude {
             if line.trim() == "[end]" {
                 in_prelude = false;
@@ -1650,6 +1767,11 @@ fn parse_targets(text: &str) -> (String, Vec<Target>) {
         }
         if l == "[prelude]" {
             in_prelude = true;
+            continue;
+        }
+        if l == "[coq]" {
+            in_raw = true;
+            out.push(Target { raw: Some(String::new()), ..Default::default() });
             continue;
         }
         if l == "[target]" {
@@ -1723,12 +1845,18 @@ fn parse_targets(text: &str) -> (String, Vec<Target>) {
                 let (vs, term) = b.split_once(":=").expect("condmut needs vars := term");
                 t.condmut.push((norm(&a), vs.split(',').map(|v| v.trim().to_string()).collect(), term.trim().to_string()));
             }
-            "scrutmut" | "condeff" => {
+            "scrutmut" | "condeff" | "leteff" | "psmap" => {
                 let (a, b) = arrow(rest);
                 let (vs, term) = b.split_once(":=").expect("needs vars := term");
                 let e = (norm(&a), vs.split(',').map(|v| v.trim().to_string()).collect(), term.trim().to_string());
-                if key == "scrutmut" { t.scrutmut.push(e) } else { t.condeff.push(e) }
+                match key {
+                    "scrutmut" => t.scrutmut.push(e),
+                    "condeff" => t.condeff.push(e),
+                    "leteff" => t.leteff.push(e),
+                    _ => t.psmap.push(e),
+                }
             }
+            "loopfuel" => t.loopfuel = Some(rest.to_string()),
             "retstate" => t.retstate = rest.split_whitespace().map(|s| s.to_string()).collect(),
             "retvars" => t.retvars = rest.split_whitespace().map(|s| s.to_string()).collect(),
             "recfuel" => t.recfuel = Some(rest.to_string()),
@@ -1839,6 +1967,11 @@ fn main() {
     text.push_str(&prelude);
     let mut failed = false;
     for t0 in targets {
+        if let Some(r) = &t0.raw {
+            text.push_str("\n");
+            text.push_str(r);
+            continue;
+        }
         let mut t = t0.clone();
         let src = match std::fs::read_to_string(format!("{}/{}", repo, t.file)) {
             Ok(s) => s,
@@ -1884,7 +2017,7 @@ fn main() {
         }
         module_consts(&file, &mut t);
         local_consts(block, &mut t);
-        let mut tr = Tr { t: &t, fresh: 0, env: vec![HashMap::new()], loop_depth: 0, loop_sr: Vec::new() };
+        let mut tr = Tr { t: &t, fresh: 0, env: vec![HashMap::new()], loop_depth: 0, loop_sr: Vec::new(), loop_brk: Vec::new() };
         let kw = if t.recfuel.is_some() { "Fixpoint" } else { "Definition" };
         let mut header = format!("{} {}", kw, t.coq);
         if t.recfuel.is_some() {
